@@ -518,6 +518,48 @@ def run_one(tape, tier, opts):
                                     f"processes=1 table at {d}")
                 ctx.probe("method." + method + ".procs_gt_1")
 
+        # ---- a second sample over the same bins, segmented next in the same process ----------
+        if tape.chance(1, 4, "seg.second_sample"):
+            import numpy as np
+            rng2 = np.random.default_rng(tape.subseed("seg.second_sample.bulk"))
+            table_b = dict(table)
+            cols_b = {k: list(v) for k, v in table["columns"].items()}
+            nb = table["n"]
+            cols_b["weight"] = np.where(np.array(cols_b["weight"]) > 0,
+                                        rng2.uniform(0.05, 1.0, size=nb), 0.0).tolist()
+            l2b = np.array(cols_b["log2"], dtype=float)
+            keep = l2b > -15
+            l2b[keep] = l2b[keep][::-1] + rng2.normal(0, 0.05, size=int(keep.sum()))
+            cols_b["log2"] = l2b.tolist()
+            if "depth" in cols_b:
+                cols_b["depth"] = np.where(keep, np.exp2(l2b) * 100.0, 0.0).tolist()
+            table_b["columns"] = cols_b
+            cn_b = G.make_cna(table_b, "verif_b")
+            if index_style != "default":
+                cn_b.data.index = cnarr.data.index
+            try:
+                out_b = seg.do_segmentation(cn_b, method, processes=1 if tape.chance(1, 2, "seg.second_serial")
+                                            else processes, **kw)
+            except C.SimCrash:
+                raise
+            except BaseException as exc:  # noqa: BLE001
+                surv_b, _n = _collect_obs()
+                if not (is_hmm and _autosomal_survivors(surv_b) < HMM_MIN_AUTOSOMAL
+                        and not isinstance(exc, AssertionError)):
+                    raise Violation("T2", f"C03/T2/{method}/second_sample/raises",
+                                    f"a second sample over the same bins: {type(exc).__name__}: "
+                                    f"{D.mask_text(exc)[:200]}")
+            else:
+                surv_b, _n = _collect_obs()
+                try:
+                    check_filters(table_b, surv_b, method, cfg)
+                    check_table(out_b.data, table_b, surv_b, method, None)
+                except Violation as v:
+                    raise Violation(v.clause, v.key + "/second_sample",
+                                    "a second sample over the same bins, segmented after the first in the "
+                                    "same process: " + v.message)
+                ctx.probe("second_sample.checked")
+
         # ---- the command-line path: .cnr file -> cnvkit.py segment -> .cns file -----
         if use_cli:
             _cli_path(ctx, tape, rundir, cnarr, table, method, skip_low, skip_outliers,
